@@ -320,10 +320,17 @@ def enumeration_check(cname, backend, seed, n_random):
                 want2 = [a for a in (dict(zip(over, vals)) for vals in itertools.product(*[doms[nm] for nm in over]))
                          if any(all(a.get(k) == v for k, v in m.items()) for m in models)] \
                     if set(supp) <= set(over) else None
+                care_arg = None if care is None else list(care)
+                if care_arg and trial % 3 == 0:
+                    # an identifier listed twice (e.g. concatenated overlapping variable lists)
+                    # is still one identifier
+                    care_arg = care_arg + care_arg[:1]
+                elif care_arg and trial % 3 == 1:
+                    care_arg = set(care_arg)
                 try:
-                    got = list(c.pick_iter(u, care_vars=None if care is None else list(care)))
-                    cnt = c.count(u, care_vars=None if care is None else list(care))
-                    one = c.pick(u, care_vars=None if care is None else list(care))
+                    got = list(c.pick_iter(u, care_vars=care_arg))
+                    cnt = c.count(u, care_vars=care_arg)
+                    one = c.pick(u, care_vars=care_arg)
                 except Exception as e:
                     fails.append(dict(name='pick_iter / count / pick run without error', error=repr(e), care=str(care)))
                     continue
@@ -337,7 +344,7 @@ def enumeration_check(cname, backend, seed, n_random):
                 if not ok and len(fails) < 4:
                     fails.append(dict(
                         name='pick_iter yields every satisfying assignment over support + care_vars exactly once; count equals their number; pick returns one of them',
-                        care=str(care), yielded=len(got), expected=len(want), count=cnt,
+                        care=str(care_arg), yielded=len(got), expected=len(want), count=cnt,
                         duplicates=len(got) - len({str(key(a)) for a in got})))
         return dict(records=[], stats=dict(), functions={
             f'omega.symbolic.fol.Context.{k}': dict(source_lines=0, cut={}, stubs=[], dropped='run natively on real dd: bounded')
